@@ -589,8 +589,12 @@ class Lib(object):
             def ripemd160(data, _rip=rip):
                 d = VBytes(data)
                 st = stubs.cur_state()
-                if d.is_concrete() or (st is not None and st.get('ripemd160') == 'code'):
+                if st is not None and st.get('ripemd160') == 'code':
                     return _rip(d)
+                if d.is_concrete() and st is None:
+                    return _rip(d)
+                # concrete inputs inside an exploration also go through hash_apply: it computes them with the library's own code
+                # and records the pair, so that uninterpreted applications on the same path agree with it on equal inputs
                 return stubs.hash_apply('ripemd160', d)
             m.ripemd160_code = rip
             m.ripemd160 = ripemd160
